@@ -209,7 +209,8 @@ impl RenkoOutput {
 	#[must_use]
 	#[inline]
 	pub fn gap(&self) -> ValueType {
-		self.brick_size * self.len as ValueType
+		// `brick_size` is relative to the base line of the step
+		self.brick_size * self.len as ValueType * self.base_line
 	}
 
 	/// Returns sign of the Renko's blocks
